@@ -8,11 +8,16 @@ Decided:
          route's methods and continues without executing; trying a later route after execute() requires an
          HTTPException result with is_breaking false *and* add_exception(ret); the method test dominates
          slash handling and execute;
-  R06.c  sentinel priority: last recorded exception, else 405 built from allowed_methods, else 404; recording order:
+  R06.c  sentinel priority (decided in NullRoute.handle_sentinel_condition or in the DispatchState method it hands over
+         to): last recorded exception, else 405 built from allowed_methods, else 404; every dispatch state starts with
+         empty containers of its own (constructor assignment or per-instance factory of a declared field; a value
+         evaluated once for the class / a mutable parameter default is shared by all requests); recording order:
          add_exception puts its argument behind the last element on every path that returns and does nothing else to
          the list, and nobody else writes a dispatch state's list (so [-1] is the most recent error);
-  R06.d  method normalisation: Route upper-cases and validates methods and adds HEAD for GET;
-         match_method upper-cases the request method and admits everything when methods is falsy;
+  R06.d  method normalisation: Route upper-cases and validates methods and adds HEAD for GET (written out or as a
+         loop over a constant table of (listed, implied) pairs -- exactly GET => HEAD);
+         match_method upper-cases the request method -- its parameter, not re-bound before the test -- and admits
+         everything when methods is falsy;
          update_methods unions;
   R06.e  the 405 carries Allow: MethodNotAllowed stores a value derived from allowed_methods under the
          'Allow' header after the response is initialised.
